@@ -479,6 +479,34 @@ def run(ctx):
             elif bad is None:
                 bad = (n, it, rc, out.strip()[:500], "[TSan build] " + err[-1500:])
     ctx.cov["threads_test"] = tstat
+    # ------------------------------------------------------------ counter probes (private static TimeStamp::global preset)
+    # the counter is a 64-bit size_t: a value narrowed on its way out of nextValue() repeats / decreases when the counter
+    # passes 2^31, 2^32 ...; wrap-around at 2^64 itself is outside the property's reach (model counter unbounded)
+    probes = {"runs": 0, "skipped": 0}
+    if priv and not bad:
+        for start in ((1 << 31) - 8, (1 << 32) - 8, (1 << 63) - 8, (1 << 16) - 8):
+            for (n, it) in ((1, 16), (2, 16)):
+                rc, out, err = ctx.run_exe(exe, ["counter", str(start), str(n), str(it)], timeout=120)
+                probes["runs"] += 1
+                o = out.strip()
+                if o.startswith("SKIP"):
+                    probes["skipped"] += 1
+                elif rc == 0 and o.startswith("OK"):
+                    m = re.search(r"min=(\d+) max=(\d+)", o)
+                    if m and int(m.group(1)) >= start:
+                        ctx.count(1); ctx.nontriv("counter %d %d %d" % (start, n, it))
+                    elif bad is None:
+                        bad = (n, it, rc, "stamps handed out after the counter was set to %d: %s (values below the counter)" % (start, o), err[-800:], start)
+                elif bad is None:
+                    bad = (n, it, rc, o[:500] or "rc=%d" % rc, err[-1500:], start)
+        if bad and len(bad) == 6:
+            ctx.violation("TimeStamp with the global counter at %d (%s): %s" % (bad[5], "2^%d - 8" % ((bad[5] + 8).bit_length() - 1) if (bad[5] + 8) & (bad[5] + 7) == 0 else bad[5], bad[3]),
+                          {"counter_start": bad[5], "threads": bad[0], "iterations_per_thread": bad[1], "rc": bad[2], "observed": bad[3], "stderr_tail": bad[4],
+                           "required": "every stamp created or renewed is larger than all earlier ones of its thread and distinct from all others, also when the "
+                                       "64-bit counter passes 2^31 / 2^32 / 2^63",
+                           "rerun": "%s counter %d %d %d" % (exe, bad[5], bad[0], bad[1])})
+            bad = None
+    ctx.cov["counter_probes"] = probes
     if bad:
         ctx.violation("TimeStamp under concurrent creation/renewal/copy contradicts the property text: %s" % (bad[3] or "rc=%d" % bad[2]),
                       {"threads": bad[0], "iterations_per_thread": bad[1], "rc": bad[2], "observed": bad[3], "stderr_tail": bad[4],
@@ -490,7 +518,8 @@ def run(ctx):
                     + ("; TSan build" if tsan else "") + ")",
                     "modelled, not verified: std::vector push_back / std::remove+erase, operator new/delete (the harness keeps every object on the heap "
                     "so ASan sees stale pointers), std::atomic<size_t> post-increment as one indivisible fetch-add (the threads run observes it)"]
-    ctx.assumptions += ["the counter is an unbounded N in the model: wrap-around of size_t after 2^64 stamps is not modelled",
+    ctx.assumptions += ["the counter is an unbounded N in the model: wrap-around of size_t after 2^64 stamps is outside the property's reach and not modelled "
+                        "(the harness presets the real counter to 2^16-8, 2^31-8, 2^32-8, 2^63-8 to see that nothing narrower than 64 bits is in the way)",
                         "histories respect the C++ lifetime rules (no call on a destroyed object, no double delete); Observer/Observable are not copied "
                         "(their implicit copy operations are outside the property's alphabet)",
                         "Observable/Observer operations are sequential (the classes are not thread-safe and the property does not ask for it); "
